@@ -9,6 +9,10 @@ EXPECT = {}   # qualname -> list of 'T' / 'F' per ensures clause
 def register(reg):
     def probe(q, params, returns, clauses, **kw):
         EXPECT[q] = [t for t, _ in clauses]
+        if returns is None:
+            kw.setdefault("modifies", [])
+            reg.contract(SRC, q, params=params, ensures=[c for _, c in clauses], props=["SELF"], **kw)
+            return
         kw.setdefault("modifies", []); reg.contract(SRC, q, params=params, returns=returns, ensures=[c for _, c in clauses], props=["SELF"], **kw)
 
     LL = List(List(INT))
@@ -86,3 +90,137 @@ def register(reg):
         ("F", "forall(range(0, len(ds)), lambda j: get0(ds[j], 'n') == old(get0(ds[j], 'n')) + 1)"),   # false when two entries alias
         ("F", "forall(range(0, len(ds)), lambda j: get0(ds[j], 'n') == 1)"),
     ], loops={0: {"inv": ["True"]}}, modifies=["*D.str.int.dom", "*D.str.int.val"])
+    LI = List(INT)
+    probe("last", {"xs": LI}, INT, [
+        ("T", "implies(len(xs) == 0, result == 0)"),
+        ("F", "result == 0"),
+        ("F", "implies(len(xs) >= 1, result == xs[0])"),
+    ], loops={0: {"inv": ["implies(_i == 0, r == 0)"]}})
+    probe("app", {"a": LI, "b": LI}, INT, [
+        ("T", "result >= old(len(b))"),
+        ("F", "result == old(len(b))"),      # false when a is b
+    ], modifies=["a"])
+    probe("fdiv", {"a": INT, "b": INT}, INT, [
+        ("T", "implies(a == -7 and b == 2, result == -4)"),
+        ("F", "implies(a == -7 and b == 2, result == -3)"),
+        ("T", "implies(a == 7 and b == -2, result == -4)"),
+    ], requires=["b != 0"])
+    probe("fmod", {"a": INT, "b": INT}, INT, [
+        ("T", "implies(a == -7 and b == 2, result == 1)"),
+        ("F", "implies(a == -7 and b == 2, result == -1)"),
+        ("T", "implies(a == 7 and b == -2, result == -1)"),
+    ], requires=["b != 0"])
+    probe("either", {"a": INT, "b": INT}, INT, [
+        ("T", "implies(a == 0, result == b)"),
+        ("T", "implies(a != 0, result == a)"),
+        ("F", "result == b"),
+    ])
+    probe("chain", {"a": INT, "b": INT, "c": INT}, BOOL, [
+        ("T", "result == (a < b and b < c)"),
+        ("F", "result == (a < c)"),
+    ])
+    probe("tail", {"xs": LI}, INT, [
+        ("T", "result == xs[len(xs) - 1]"),
+        ("F", "result == xs[0]"),
+    ], raises={"IndexError": "len(xs) == 0"})
+    probe("rest", {"xs": LI}, LI, [
+        ("T", "implies(len(xs) >= 1, len(result) == len(xs) - 1)"),
+        ("T", "implies(len(xs) == 0, len(result) == 0)"),
+        ("F", "len(result) == len(xs) - 1"),
+        ("F", "implies(len(xs) >= 2, result[0] == xs[0])"),
+    ], fresh_result=True)
+    probe("alias_row", {"rows": List(COMP)}, INT, [
+        ("T", "result == 1"),
+        ("F", "result == old(get0(rows[0], 'k'))"),
+    ], modifies=["rows[0]"], raises={"IndexError": "len(rows) == 0"})
+    probe("alias_list", {"a": LI}, INT, [
+        ("T", "result == old(len(a)) + 1"),
+        ("F", "result == old(len(a))"),
+    ], modifies=["a"])
+    probe("find_first", {"xs": LI, "v": INT}, INT, [
+        ("T", "implies(result >= 0, xs[result] == v)"),
+        ("T", "implies(result == -1, forall(range(0, len(xs)), lambda j: xs[j] != v))"),
+        ("F", "result >= 0"),
+        ("F", "result == -1"),
+    ], loops={0: {"inv": ["forall(range(0, _i), lambda j: xs[j] != v)"]}})
+    probe("skip_neg", {"xs": LI}, INT, [
+        ("T", "0 <= result and result <= len(xs)"),
+        ("F", "result == len(xs)"),
+        ("F", "result == 0"),
+    ], loops={0: {"inv": ["0 <= t and t <= _i"]}})
+    probe("guarded", {"d": COMP, "k": STR}, INT, [
+        ("T", "implies(k in d, result == d[k])"),
+        ("T", "implies(not (k in d), result == -1)"),
+        ("F", "result == -1"),
+        ("F", "result != -1"),
+    ])
+    probe("cleanup", {"d": COMP, "k": STR}, INT, [
+        ("T", "get0(d, 'seen') == 1"),
+        ("F", "result == get0(d, k)"),       # false for k == 'seen'
+    ], modifies=["d"], raises={"KeyError": "not (k in d)"}, ensures_exc={"KeyError": ["get0(d, 'seen') == 1"]})
+    probe("popdefault", {"d": COMP, "k": STR}, INT, [
+        ("T", "result == old(get0(d, k)) and not (k in d)"),
+        ("F", "k in d"),
+        ("F", "result == 0"),
+    ], modifies=["d"])
+    probe("setdef", {"d": COMP, "k": STR}, INT, [
+        ("T", "implies(old(k in d), result == old(d[k]))"),
+        ("T", "implies(not old(k in d), result == 5)"),
+        ("F", "result == 5"),
+    ], modifies=["d"])
+    probe("delete", {"d": COMP, "k": STR}, BOOL, [
+        ("T", "result == False"),
+        ("F", "result == True"),
+    ], modifies=["d"], raises={"KeyError": "not (k in d)"})
+    probe("strjoin", {"a": STR, "b": STR}, STR, [
+        ("T", "implies(a == 'x' and b == 'y', result == 'x.y')"),
+        ("F", "result == a"),
+    ])
+    probe("ternary", {"a": INT}, INT, [
+        ("T", "result == (2 if a == 0 else 1)"),
+        ("F", "result == 1"),
+    ])
+    probe("inc", {"d": COMP, "k": STR}, None, [
+        ("T", "get0(d, k) == old(get0(d, k)) + 1 and k in d"),
+        ("T", "forall(STR, lambda q: implies(q != k, get0(d, q) == old(get0(d, q)) and (q in d) == old(q in d)))"),
+    ], modifies=["d"])
+    probe("twice", {"d": COMP, "e": COMP, "k": STR}, INT, [
+        ("T", "result >= old(get0(d, k)) + 1"),
+        ("F", "result == old(get0(d, k)) + 1"),     # false when d is e
+        ("F", "result == old(get0(d, k)) + 2"),
+    ], modifies=["d", "e"])
+    probe("risky", {"x": INT}, INT, [("T", "result == x and x >= 0")], raises={"ValueError": "x < 0"})
+    probe("caller", {"x": INT}, INT, [
+        ("T", "result >= 0"),
+        ("T", "result == (x if x >= 0 else 0)"),
+        ("F", "result == x"),
+    ])
+    probe("ptotal", {"xs": LI}, INT, [("T", "result == sum(x for x in xs)")], pure=True)
+    probe("same_total", {"a": LI}, INT, [
+        ("F", "result == 0"),       # a pure function of a list is a function of its contents, not of the reference
+        ("F", "result == 1"),
+    ], modifies=["a"])
+    reg.classdecl("Box", {"v": INT})
+    probe("Box.getv", {"self": Obj("Box")}, INT, [("T", "result == self.v")], pure=True)
+    probe("bump", {"b": Obj("Box")}, INT, [
+        ("T", "b.v == old(b.v) + 1"),
+        ("F", "result == 0"),
+        ("F", "result == 2"),
+    ], modifies=["b"])
+    probe("dget", {"d": COMP, "k": STR}, INT, [("T", "result == get0(d, k)")], pure=True)
+    probe("bump_dict", {"d": COMP, "k": STR}, INT, [
+        ("T", "result == 1"),
+        ("F", "result == 0"),
+    ], modifies=["d"])
+    probe("fill", {"n": INT}, LI, [
+        ("T", "len(result) == (n if n >= 0 else 0)"),
+        ("T", "forall(range(0, len(result)), lambda j: result[j] == j)"),
+        ("F", "len(result) == n"),
+        ("F", "forall(range(0, len(result)), lambda j: result[j] == 0)"),
+    ], fresh_result=True, loops={0: {"inv": ["fresh(out) and len(out) == _i", "forall(range(0, _i), lambda j: out[j] == j)"]}},
+        locals_types={"out": LI})
+    probe("nested_old", {"rows": List(COMP)}, INT, [
+        ("T", "result == len(rows)"),
+        ("F", "forall(range(0, len(rows)), lambda j: get0(rows[j], 'c') == old(get0(rows[j], 'c')) + 1)"),   # false with repeated rows
+        ("F", "forall(range(0, len(rows)), lambda j: get0(rows[j], 'c') == old(get0(rows[j], 'c')))"),
+    ], modifies=["*D.str.int.dom", "*D.str.int.val"], loops={0: {"inv": ["True"]}})
